@@ -549,7 +549,7 @@ def run_case(fam, variant, drv, mode, ks):
                 res["violations"].append({
                     "sig": {"clause": clause, "driver": drv["label"], "scope": drv["scope"],
                             "footprint": f"{byname_cls}.{key[1]}", "relation": relation(t, drv, key),
-                            "observed": observed, "mode": "live" if mode.startswith("live") else "fresh"},
+                            "observed": observed, "mode": mode},
                     "detail": {"world": w["name"], "inputs": drv["inputs"], "k": k, "mode": mode,
                                "footprint": f"{key[0]}.{key[1]}", "expected_rule": rule[0],
                                "before": S.render(f1, 8), "after": S.render(fks[k], 8),
